@@ -199,6 +199,7 @@ Predict(d, pr, pr2) ==
       W2 == World(d, pr2)
   IN [grid |-> W.g, igrid |-> W.ig, T |-> W.T, t0 |-> W.t0,
       X |-> W.X,
+      gridfeas |-> DeclFeasible(d.method.grid, W.N, W.t0, W.T, pr.gv),
       gaps |-> PredictGaps(W),
       cons |-> PredictCons(W, W2),
       f |-> PredictObj(W),
